@@ -161,6 +161,21 @@ class StoreFacts:
                 out.add(e)
         return out
 
+    def effect_callees(self, fi: FuncInfo, n: Node) -> List[str]:
+        """Names of the calls at *n* that carry a visible mutation / creation (not of wrappers such as
+        ``list.extend`` around them): stable under re-arrangements of the statement."""
+        out = []
+        for (m, c, targets, ext) in self.S.calls_of(fi):
+            if m is not n or not isinstance(c, ast.Call):
+                continue
+            carries = bool(self.mut_local(fi, n, c, ext) or self.create_local(fi, n, c, ext)) or any(
+                self.mut.get(t.qualname) or self.create.get(t.qualname) for t in targets)
+            if carries:
+                nm = (dotted(c.func) or src(c.func)).split(".")[-1]
+                if nm not in out:
+                    out.append(nm)
+        return out
+
     def callee_names(self, fi: FuncInfo, n: Node) -> List[str]:
         out = []
         for (m, c, targets, ext) in self.S.calls_of(fi):
